@@ -380,7 +380,14 @@ class UnitRun:
             rec = {'unit': self.label, 'fn': fn, 'obligation': oid, 'message': msg, 'tags': list(tags or []),
                    'clause_text': ctext, 'proof_internal': internal, 'line': line,
                    'rendered': d.get('rendered', '')}
-            if k == 'undecided' or fn is None:
+            lost = []
+            for r_ in self.gen['records']:
+                if r_['fn'] == fn:
+                    lost = r_.get('lost_hints', [])
+            if lost and (internal or not cids):
+                rec['message'] += ' [proof hint lost: %s]' % lost[0]
+                self.undecided.append(rec)
+            elif k == 'undecided' or fn is None:
                 self.undecided.append(rec)
             else:
                 self.failures.append(rec)
